@@ -10,7 +10,7 @@ Each command (start / send e) yields one observation dict:
   C sorted active ids | S status | T ordered log | H recorded history | E error kind | X #logged errors
 """
 from __future__ import annotations
-import asyncio, copy, heapq, logging, selectors, signal, sys, os
+import asyncio, copy, heapq, json, logging, selectors, signal, sys, os
 
 logging.disable(logging.WARNING)          # ERROR records reach the counting handler below, nothing is printed
 
@@ -159,6 +159,26 @@ def observe(it, log, err="", nerr=0, cuts=0):
     return {"C": ids, "S": it.status, "T": list(log), "H": hist, "E": err, "X": nerr, "K": ctx, "cuts": cuts}
 
 
+def _fingerprint(it):
+    q = it._event_queue
+    qlen = q.qsize() if hasattr(q, "qsize") else len(q)
+    return (tuple(sorted(n.id for n in it._active_state_nodes)), json.dumps(it.context, sort_keys=True, default=str) if isinstance(it.context, dict) else "",
+            tuple(sorted((k, tuple(n.id for n in v)) for k, v in it._history.items())), it.status, qlen)
+
+
+def _probe_can(it, op, log):
+    """can(event) before delivering it: the answer, and whether asking changed anything"""
+    if op[0] != "send":
+        return None, False
+    before = (_fingerprint(it), len(log))
+    try:
+        ans = bool(it.can(op[1]))
+    except Exception as e:      # can() must never raise
+        ans = "EXC:" + type(e).__name__
+    after = (_fingerprint(it), len([r for r in log if not r.startswith("#")]) if False else len(log))
+    return ans, before != after
+
+
 def _mk_event(op):
     kind = op[0]
     if kind == "send":
@@ -192,11 +212,15 @@ def run_sync(case):
     for op in case_ops(case):
         log.clear()
         cnt.reset()
+        can, mutated = _probe_can(it, op, log)
+        log.clear()
         try:
             it.send(_mk_event(op))
             out.append(observe(it, log, cuts=cnt.cuts))
         except XStateMachineError as x:
             out.append(observe(it, log, type(x).__name__, cuts=cnt.cuts))
+        out[-1]["can"] = can
+        out[-1]["can_mutated"] = mutated
     it.stop()
     return out
 
@@ -279,9 +303,13 @@ async def _run_async(case):
     for op in case_ops(case):
         log.clear()
         cnt.reset()
+        can, mutated = _probe_can(it, op, log)
+        log.clear()
         await it.send(_mk_event(op))
         await _drain(it)
         out.append(observe(it, log, nerr=cnt.n, cuts=cnt.cuts))
+        out[-1]["can"] = can
+        out[-1]["can_mutated"] = mutated
     await it.stop()
     return out
 
